@@ -156,7 +156,8 @@ class VectorGradientMixin(GradientMixin):
     def _negative_nmll_laplace_derivative(fitness_vector, fitness_partials):
         n = len(fitness_vector)
         b = 1 / np.sqrt(n)
+        mse = np.mean(np.square(fitness_vector))
         dmse = 2 * np.mean(fitness_vector * fitness_partials, axis=1)
-        dll = -0.5 * n / dmse
+        dll = -0.5 * n * dmse / mse
         dnmll = (1 - b) * dll
         return -dnmll
